@@ -386,4 +386,36 @@ def relayExpect (c : IPText) (ds : List Bytes) : List UDest := ds.filterMap (udp
 def holdsRelay (c : IPText) (ds : List Bytes) (sent : List UDest) : Bool :=
   sent.isPerm (relayExpect c ds)
 
+/-- The host text `parseUDPHeader` reports for a header built from `host`: the canonical text of the
+address when `host` is an IP literal, `host` itself otherwise. -/
+def rebuiltHost (c : IPText) (host : Text) : Text :=
+  match c.parse host with
+  | some ip => ipString c ip
+  | none => host
+
+/-- Everything the relay exchanged with its surroundings for one batch of datagrams: packets given to
+tunnels, DNS queries given to the control channel (server, query), datagrams sent back to the
+application. `answer` is how the doubles answer a payload (tunnel / DNS). -/
+structure RelayIO where
+  fw : List UDest
+  dq : List (Text × Bytes)
+  rx : List Bytes
+deriving DecidableEq, Repr
+
+/-- What the model relay exchanges, given what it handed on (`sent`). -/
+def relayIO (c : IPText) (dns : Bool) (answer : Bool → Bytes → Bytes) (sent : List UDest) : RelayIO :=
+  ⟨sent.filter (fun d => !isDnsRoute dns d),
+   (sent.filter (isDnsRoute dns)).map (fun d => (dnsServer d.host, d.payload)),
+   sent.map (fun d => replyDatagram c d (answer (isDnsRoute dns d) d.payload))⟩
+
+/-- **The relay property, both directions, on one observation**: tunnels and DNS handler received,
+up to order, exactly the expected payloads for the expected destinations; and what came back to the
+application is, up to order, one RFC datagram per answer, naming the destination the answer belongs
+to (same text, or the canonical text of the same IP literal), the same port, the answer intact. -/
+def holdsRelayIO (c : IPText) (dns : Bool) (answer : Bool → Bytes → Bytes) (ds : List Bytes) (o : RelayIO) : Bool :=
+  o.fw.isPerm ((relayExpect c ds).filter (fun d => !isDnsRoute dns d)) &&
+  o.dq.isPerm (((relayExpect c ds).filter (isDnsRoute dns)).map (fun d => (dnsServer d.host, d.payload))) &&
+  (o.rx.map (udpExpect c)).isPerm ((relayExpect c ds).map
+    (fun d => some ⟨rebuiltHost c d.host, d.port, answer (isDnsRoute dns d) d.payload⟩))
+
 end Tunnox.C20
